@@ -47,6 +47,50 @@ class ObjectsCheck:
     def targets(self):
         return self.vc.targets(self.PROP) if self.vc else []
 
+    # The induction over the type grammar (DESIGN 4.3): TypeContract is *assumed* for inner types (abstract field / item / referent
+    # types) inside each constructor's proof and must therefore be *proved* for every constructor.  This table names, per type
+    # constructor and TypeContract clause, the discharged obligations that establish it; `meta_obligations` checks on every run that
+    # they exist and are discharged, so the induction has no uncovered case (for the clauses this property's run contains).
+    INDUCTION = {
+        "scalar": {"TC2.frame": [r"NumpyScalar\._to_buffer#post\.frame_exactly_itemsize_bytes"],
+                   "TC3.read": [r"NumpyScalar\._from_buffer#post\.reads_exactly_the_written_bytes", r"NumpyScalar\._from_buffer#post\.read_bytes_equal_written_encoding"]},
+        "String": {"TC1.size": [r"MetaString\._inspect_args#post\.size\["], "TC2.frame": [r"MetaString\._to_buffer#post\.frame\["],
+                   "TC2.bytes": [r"MetaString\._to_buffer#post\.data_bytes", r"MetaString\._to_buffer#post\.nul_terminated", r"MetaString\._to_buffer#post\.size_word"],
+                   "TC3.read": [r"MetaString\._from_buffer#post\.read_range"]},
+        "Ref": {"TC2.frame": [r"Ref\._to_buffer#post\.frame_slot_only"], "TC2.encoding": [r"Ref\._to_buffer#post\.(null|alias|new_object)_encoding"],
+                "TC3.read": [r"Ref\._from_buffer#post\.resolves_to_target_offset", r"Ref\._from_buffer#post\.reads_back_none"]},
+        "UnionRef": {"TC2.frame": [r"MetaUnionRef\._to_buffer#post\.frame_slot_only"], "TC2.encoding": [r"MetaUnionRef\._to_buffer#post\.(null|alias|new_object)_encoding"],
+                     "TC3.read": [r"MetaUnionRef\._from_buffer#post\.resolves_to_target_offset", r"MetaUnionRef\._from_buffer#post\.resolves_with_recorded_member_type"]},
+        "Struct": {"layout": [r"MetaStruct\.__new__#inv\d+\.preserve\.field_placed_at_running_offset", r"MetaStruct\.__new__#inv\d+\.preserve\.next_part_after_this_one"],
+                   "TC2.frame": [r"Struct\._to_buffer#post\.frame_whole_object"],
+                   "TC2.parts": [r"Struct\._to_buffer#post\.fields\d+_disjoint", r"Struct\._to_buffer#post\.field\d_extent_inside_object", r"Struct\._to_buffer#post\.field\d_written_at_documented_offset"],
+                   "TC2.header": [r"Struct\._to_buffer#post\.size_word_after_all_writes", r"Struct\._to_buffer#post\.offset_word\d_after_all_writes"],
+                   "TC3.read": [r"Struct\._from_buffer#post\.offsets_cached_for_dynamic_fields", r"Struct\._from_buffer#post\.field\d_address_is_documented"]},
+        "Array": {"layout": [r"MetaArray\.__new__#post\.data_offset"], "TC1.size": [r"Array\._inspect_args#post\.size_is_slot_of_header_plus_items"],
+                  "TC2.frame": [r"Array\._to_buffer#post\.frame\["],
+                  "TC2.items": [r"Array\._to_buffer#inv\d+\.preserve\.item_written_at_documented_address", r"Array\._to_buffer#inv\d+\.preserve\.item_written_at_its_table_offset"],
+                  "TC2.header": [r"Array\._to_buffer#inv\d+\.init\.header\.", r"Array\._to_buffer#post\.offset_table_stored_in_memory_order"],
+                  "TC3.read": [r"Array\._from_buffer#post\.shape\d", r"Array\._from_buffer#post\.get_offset_is_documented_address"]},
+    }
+
+    def meta_obligations(self, all_obs):
+        import re
+
+        out = []
+        for ctor, clauses in self.INDUCTION.items():
+            for clause, pats in clauses.items():
+                matched = []
+                missing = []
+                for pat in pats:
+                    m = [o for o in all_obs if re.search(pat, o.name)]
+                    (matched.extend(m) if m else missing.append(pat))
+                if not matched:
+                    continue  # none of the supporting obligations belongs to this property's run
+                ok = not missing and all(o.status == "discharged" for o in matched)
+                out.append({"name": f"<lemma>:TypeContract#induction.{ctor}.{clause}", "status": "discharged" if ok else "refuted",
+                            "support": len(matched), "missing": missing, "undischarged": [o.name for o in matched if o.status != "discharged"][:3]})
+        return out
+
     def bounded(self, tier, seed, focus):
         return objects_native.run(self.PROP, tier, seed)
 
